@@ -100,6 +100,7 @@ type vwalk struct {
 	c       *Ctx
 	structs map[string]map[string]string // struct -> field -> Go type text
 	state   map[string]sval              // "PmtpParams.PmtpPeriodGovernanceRate" -> current symbolic value
+	consts  map[string]sval              // package-level constants of x/clp/types (int: vTerm/"const", string: vStr/"const")
 	out     []string                     // Lean clause texts
 	binders []string
 	guards  []string
@@ -262,9 +263,23 @@ func (w *vwalk) intConst(sc *scope, e ast.Expr) (*big.Int, bool) {
 	case *ast.ParenExpr:
 		return w.intConst(sc, x.X)
 	case *ast.Ident:
-		if v, ok := sc.get(x.Name); ok && v.k == vTerm && v.typ == "const" {
+		if v, ok := sc.get(x.Name); ok {
+			if v.k == vTerm && v.typ == "const" {
+				n, ok := new(big.Int).SetString(v.lean, 10)
+				return n, ok
+			}
+			return nil, false
+		}
+		if v, ok := w.consts[x.Name]; ok && v.k == vTerm {
 			n, ok := new(big.Int).SetString(v.lean, 10)
 			return n, ok
+		}
+	case *ast.SelectorExpr:
+		if pkg, name, ok := selName(x); ok && pkg == "types" {
+			if v, ok := w.consts[name]; ok && v.k == vTerm {
+				n, ok := new(big.Int).SetString(v.lean, 10)
+				return n, ok
+			}
 		}
 	}
 	return nil, false
@@ -278,8 +293,20 @@ func (w *vwalk) strConst(sc *scope, e ast.Expr) (string, bool) {
 			return s, err == nil
 		}
 	case *ast.Ident:
-		if v, ok := sc.get(x.Name); ok && v.k == vStr && v.typ == "const" {
+		if v, ok := sc.get(x.Name); ok {
+			if v.k == vStr && v.typ == "const" {
+				return v.lean, true
+			}
+			return "", false
+		}
+		if v, ok := w.consts[x.Name]; ok && v.k == vStr {
 			return v.lean, true
+		}
+	case *ast.SelectorExpr:
+		if pkg, name, ok := selName(x); ok && pkg == "types" {
+			if v, ok := w.consts[name]; ok && v.k == vStr {
+				return v.lean, true
+			}
 		}
 	}
 	return "", false
@@ -450,6 +477,14 @@ func (w *vwalk) binary(sc *scope, x *ast.BinaryExpr) sval {
 }
 
 func (w *vwalk) call(sc *scope, x *ast.CallExpr) sval {
+	// StringCompare called from inside package types
+	if id, ok := x.Fun.(*ast.Ident); ok && id.Name == "StringCompare" && len(x.Args) == 2 {
+		a := w.eval(sc, x.Args[0])
+		if s, ok := w.strConst(sc, x.Args[1]); ok && s == "" && a.k == vStr && a.typ != "const" {
+			return sval{vCond, "Cond.strEmpty " + LeanStr(a.lean), "bool"}
+		}
+		return unknown
+	}
 	// package-level constructors
 	if pkg, name, ok := selName(x.Fun); ok {
 		switch pkg + "." + name {
@@ -849,11 +884,40 @@ func passValidate(c *Ctx) error {
 		return err
 	}
 	structs := loadStructs(c, typesFiles)
+	consts := map[string]sval{}
+	for _, f := range typesFiles {
+		for _, d := range f.Decls {
+			gd, ok := d.(*ast.GenDecl)
+			if !ok || gd.Tok != token.CONST {
+				continue
+			}
+			for _, sp := range gd.Specs {
+				vs := sp.(*ast.ValueSpec)
+				for i, n := range vs.Names {
+					if i >= len(vs.Values) {
+						continue
+					}
+					if bl, ok := vs.Values[i].(*ast.BasicLit); ok {
+						switch bl.Kind {
+						case token.INT:
+							if v, ok := new(big.Int).SetString(bl.Value, 0); ok {
+								consts[n.Name] = sval{vTerm, v.String(), "const"}
+							}
+						case token.STRING:
+							if str, err := strconv.Unquote(bl.Value); err == nil {
+								consts[n.Name] = sval{vStr, str, "const"}
+							}
+						}
+					}
+				}
+			}
+		}
+	}
 	var sb strings.Builder
 	sb.WriteString("import Sif.Model.Validate\n/- The reject conditions of ValidateBasic + handler of the AMM policy / parameter messages, as found in\n   x/clp/types/msgs.go and x/clp/keeper/msg_server.go. -/\nnamespace Sif.Generated.Validate\nopen Sif.Validate\n\n")
 	names := []string{}
 	for _, m := range vmsgs {
-		w := &vwalk{c: c, structs: structs, state: map[string]sval{}}
+		w := &vwalk{c: c, structs: structs, state: map[string]sval{}, consts: consts}
 		// ValidateBasic
 		vb := FindFunc(typesFiles, m.msgType, "ValidateBasic")
 		if vb == nil || vb.Recv == nil || len(vb.Recv.List[0].Names) != 1 {
